@@ -9,6 +9,10 @@ import (
 	"time"
 
 	"github.com/relex/fluentlib/protocol/forwardprotocol"
+	"github.com/relex/gotils/channels"
+	"github.com/relex/gotils/logger"
+	"github.com/relex/gotils/promexporter/promreg"
+	"github.com/relex/slog-agent/base"
 	"github.com/vmihailenco/msgpack/v4"
 	"verif.local/sim/simnet"
 	"verif.local/sim/simrt"
@@ -426,3 +430,38 @@ func (r *aRun) allDeliveredTo(srv *aServer) bool {
 	}
 	return true
 }
+
+// ---------------------------------------------------------------------------------------------------------------
+// Datadog output: consumer that never takes a chunk
+
+type forwarderMaker interface {
+	NewForwarder(parentLogger logger.Logger, args base.ChunkConsumerArgs, metricCreator promreg.MetricCreator) base.ChunkConsumer
+}
+
+// consumerOverride keeps the real forwarder for every output except "dd", whose HTTP client has no seam: that output
+// gets a consumer that honours the ChunkConsumer contract and never takes a chunk, so that everything its chunk maker
+// produces is spilled or saved to its queue root, where the oracle reads it
+func (r *aRun) consumerOverride() base.ChunkConsumerOverrideCreator {
+	mf := promreg.NewMetricFactory(fmt.Sprintf("simdd%d_", r.gen), nil, nil)
+	return func(lg logger.Logger, name string, dec base.ChunkDecoder, args base.ChunkConsumerArgs) base.ChunkConsumer {
+		if name != "dd" {
+			return dec.(forwarderMaker).NewForwarder(lg, args, mf.AddOrGetPrefix("output_", []string{"output"}, []string{name}))
+		}
+		return &idleConsumer{args: args, stopped: channels.NewSignalAwaitable()}
+	}
+}
+
+type idleConsumer struct {
+	args    base.ChunkConsumerArgs
+	stopped *channels.SignalAwaitable
+}
+
+func (c *idleConsumer) Start() {
+	simrt.Go("harness/idleConsumer", func() {
+		simrt.Recv("idleConsumer.wait", c.args.InputClosed.Channel())
+		c.args.OnFinished()
+		c.stopped.Signal()
+	})
+}
+
+func (c *idleConsumer) Stopped() channels.Awaitable { return c.stopped }
